@@ -170,6 +170,15 @@ class Engine(object):
         self.obligations.append(ob)
         return ob
 
+    def no_raise(self, st, exc, expr, safe):
+        """Total-correctness contracts (`total=True`): the operation must not raise -- an obligation, not a dropped path"""
+        if getattr(self.contract, "total", False) and not self.spec_mode:
+            try:
+                txt = ast.unparse(expr)[:50] if isinstance(expr, ast.AST) else str(expr)[:50]
+            except Exception:
+                txt = "?"
+            self.oblige(st, "no-%s@%s" % (exc, txt), safe, getattr(expr, "lineno", 0))
+
     def feasible(self, st):
         return self.solver.feasible(st.pc)
 
@@ -904,6 +913,7 @@ class Engine(object):
                 if isinstance(o, ListObj) and o.kind == "seq" and isinstance(idx, VInt):
                     n = o.len
                     i = z3.If(idx.z < 0, n + idx.z, idx.z)
+                    self.no_raise(s, "IndexError", e, z3.And(i >= 0, i < n))
                     s.assume(z3.And(i >= 0, i < n))  # else IndexError: path ends
                     if self.feasible(s):
                         outs.append((s, self.wrap_sort(o.g["seq"][i], o.elem)))
@@ -911,6 +921,7 @@ class Engine(object):
             if isinstance(base, VStr) and isinstance(idx, VInt):
                 n = z3.Length(base.z)
                 i = z3.If(idx.z < 0, n + idx.z, idx.z)
+                self.no_raise(s, "IndexError", e, z3.And(i >= 0, i < n))
                 s.assume(z3.And(i >= 0, i < n))  # else IndexError: path ends
                 if self.feasible(s):
                     outs.append((s, VStr(z3.SubString(base.z, i, 1))))
@@ -1395,6 +1406,7 @@ class Engine(object):
                     return [(st, st.alloc(ListObj(o.len, o.kind, o.g, o.elem)))]
                 if m == "pop" and o.kind == "seq" and len(args) <= 1:
                     n = o.len
+                    self.no_raise(st, "IndexError", e, n > 0)
                     st.assume(n > 0)  # IndexError otherwise
                     if not self.feasible(st):
                         return []
@@ -2505,9 +2517,10 @@ class Contract(object):
 
     def __init__(self, qual, params=None, requires=(), ensures=(), modifies=(), result="opaque", loops=None,
                  bind=None, closure=None, local_kinds=None, decorators=None, pure_results=None, trusted=None, src=None, deterministic=False, paths=None, block=None,
-                 block_exit=None, ghost_params=()):
+                 block_exit=None, ghost_params=(), total=False):
         self.qual = qual
         self.ghost_params = tuple(ghost_params)  # specification-only variables (declared in `params`, bound fresh, not in the code)
+        self.total = total  # total correctness: IndexError sites become obligations (explicit `raise` / assert paths are still only dropped)
         self.params = params or {}
         self.requires, self.ensures, self.modifies = list(requires), list(ensures), list(modifies)
         self.result = result
